@@ -218,6 +218,15 @@ class Session:
     def run(self, cmd):
         name = cmd[0]
         w = self.w
+        if name == 'try':
+            # an expected failure does not end the session
+            n0 = len(self.model_cmds)
+            r, ok = self.run(cmd[1])
+            if len(self.model_cmds) > n0:
+                self.model_cmds[n0] = 'try ' + self.model_cmds[n0]
+            if not ok and r.startswith('err ') and r.split()[1] in ('E', 'O'):
+                return ' '.join(r.split()[:2]), True
+            return r, ok
         if name == 'file':
             path, text = cmd[1], cmd[2]
             with open(path, 'w', encoding='utf-8', newline='') as f:
